@@ -291,6 +291,9 @@ func renderDecl(c gengo.Context, d Decl) {
 		c.RenderT("var @name = @v\n\n", snippet.Args{"name": snippet.ID(name), "v": snippet.Value(mapValue)})
 	case strings.HasPrefix(d.Kind, "mapvar:"):
 		c.RenderT("var @name = @v\n\n", snippet.Args{"name": snippet.ID(name), "v": snippet.Value(keyedMap(d.Kind))})
+	case strings.HasPrefix(d.Kind, "mapval:"):
+		v, _ := fixMap(d.Kind)
+		c.RenderT("var @name = @v\n\n", snippet.Args{"name": snippet.ID(name), "v": snippet.Value(v)})
 	case strings.HasPrefix(d.Kind, "id:"):
 		c.RenderT("var @name = @id\n\n", snippet.Args{"name": snippet.ID(name), "id": snippet.ID(d.Kind[3:])})
 	case d.Kind == "bad":
